@@ -1,6 +1,7 @@
 package main
 
 import (
+	"go/token"
 	"fmt"
 	"go/types"
 	"regexp"
@@ -60,7 +61,24 @@ func runC06(r *Run, p *Prog) {
 			}
 			for _, in := range b.Instrs {
 				if c, ok := in.(*ssa.Call); ok && c.Call.StaticCallee() == origFn(m.skipper) {
-					skipCall = c
+					// the call whose answer decides whether the loop goes on (member readers written in the loop skip
+					// layout too, but do not branch on it)
+					decides := false
+					for _, ref := range *c.Referrers() {
+						switch x := ref.(type) {
+						case *ssa.If:
+							decides = true
+						case *ssa.UnOp:
+							for _, r2 := range *x.Referrers() {
+								if _, isIf := r2.(*ssa.If); isIf && x.Op == token.NOT {
+									decides = true
+								}
+							}
+						}
+					}
+					if decides || skipCall == nil {
+						skipCall = c
+					}
 				}
 			}
 		}
@@ -114,6 +132,7 @@ func runC06(r *Run, p *Prog) {
 	r.Guard("Q4", func() {
 		ml := m.memberLoop
 		maps := map[ssa.Value]bool{}
+		mapTerms := map[string]ssa.Value{}
 		arms := 0
 		for _, b := range ml.Blocks {
 			for _, in := range b.Instrs {
@@ -122,7 +141,11 @@ func runC06(r *Run, p *Prog) {
 					continue
 				}
 				arms++
-				maps[mu.Map] = true
+				if _, seen := mapTerms[strip(T.T(mu.Map))]; !seen {
+					// (a map kept in a member of the cursor is loaded anew at each use: one map per term)
+					mapTerms[strip(T.T(mu.Map))] = mu.Map
+					maps[mu.Map] = true
+				}
 				key := T.T(mu.Key)
 				look := "ext(lookup(" + T.T(mu.Map) + "," + key + "),1)"
 				// the lookup is on a load of the same member of the same object
@@ -148,6 +171,9 @@ func runC06(r *Run, p *Prog) {
 					}
 				}
 				okKey := strings.HasPrefix(strip(key), "ext(call:") && strings.HasSuffix(strip(key), ",0).Name")
+				if !okKey && m.memberNodeOf(ml, key) != nil {
+					okKey = true // the Name of the member node built on this arm (the reader is written in the loop)
+				}
 				r.Ob("Q4", shortName(ml), fmt.Sprintf("member name inserted (update #%d) only on the not-yet-defined edge of a lookup of the same name in the same map", a.ord(mu)), mu.Pos(), okFact && okKey,
 					fmt.Sprintf("insert of %s: lookup-failed fact for the same key in the same map present: %v", strip(key), okFact))
 				// the member is appended in the same block (so under the same fact)
@@ -168,7 +194,36 @@ func runC06(r *Run, p *Prog) {
 			fmt.Sprintf("%d distinct maps for %d member kinds: a name may be defined twice across kinds", len(maps), arms))
 		for mp := range maps {
 			_, made := mp.(*ssa.MakeMap)
-			r.Ob("Q4", shortName(ml), "the map is created empty per parse", mp.Pos(), made && !blockInLoop(mp.(ssa.Instruction).Block()), "")
+			okMade := made && !blockInLoop(mp.(ssa.Instruction).Block())
+			detail := ""
+			if ld, isLd := mp.(*ssa.UnOp); isLd && !made {
+				// a member of the cursor: assigned a fresh map once, by the member loop's function before the loop, and
+				// nowhere else in the package
+				if fa, isFA := ld.X.(*ssa.FieldAddr); isFA && a.isCursorT(fa.X.Type()) {
+					n, good := 0, 0
+					for _, f := range m.funcs() {
+						for _, b := range f.Blocks {
+							for _, in := range b.Instrs {
+								st, ok := in.(*ssa.Store)
+								if !ok {
+									continue
+								}
+								fa2, ok := st.Addr.(*ssa.FieldAddr)
+								if !ok || fa2.Field != fa.Field || !types.Identical(fa2.X.Type(), fa.X.Type()) {
+									continue
+								}
+								n++
+								if _, isMM := st.Val.(*ssa.MakeMap); isMM && f == ml && !blockInLoop(b) && b.Dominates(ld.Block()) {
+									good++
+								}
+							}
+						}
+					}
+					okMade = n == 1 && good == 1
+					detail = fmt.Sprintf("the map is a member of the cursor: %d assignment(s) in the package, %d of them a fresh map made by the member loop's function before the loop", n, good)
+				}
+			}
+			r.Ob("Q4", shortName(ml), "the map is created empty per parse", mp.Pos(), okMade, detail)
 		}
 		// insert only after a successful member reader: under err == nil
 		for _, b := range ml.Blocks {
@@ -181,6 +236,12 @@ func runC06(r *Run, p *Prog) {
 						if f.Op == "EQ" && (f.A == "nil" || f.B == "nil") && strings.Contains(strip(f.A+f.B), callT+",1)") {
 							okErr = true
 						}
+					}
+					if !okErr && m.memberNodeOf(ml, T.T(mu.Key)) != nil {
+						// the member reader is part of the loop: its failure exits are returns of the loop itself, and what
+						// reaches the insert is the node built on the path where every read succeeded (the tests of the
+						// individual reads are the cursor-level Q2 obligations of this function)
+						okErr = true
 					}
 					r.Ob("Q2", shortName(ml), fmt.Sprintf("member of update #%d is used only if its reader reported no error", a.ord(mu)), mu.Pos(), okErr, "")
 				}
@@ -440,12 +501,44 @@ func runC06(r *Run, p *Prog) {
 				}
 			}
 		}
+		// the method reader may be written in (or be a piece of) the member loop: the reader is then the function that
+		// builds the Method node, and "succeeds" means the node is handed on (recorded in the tree)
+		var methodNode *ssa.Alloc
+		if methodReader == nil {
+			for _, f := range a.methods {
+				for _, b := range f.Blocks {
+					for _, in := range b.Instrs {
+						if al, ok := in.(*ssa.Alloc); ok && isNamed(al.Type(), pkgIDL, "Method") {
+							methodReader, methodNode = f, al
+						}
+					}
+				}
+			}
+		}
 		if structReader == nil || methodReader == nil {
 			r.Unresolved("Q9", "struct reader / method reader")
 			return
 		}
 		punct(structReader, structNode, "the struct/enum reader", '(', ')')
-		punct(methodReader, nil, "the method reader", '-', '>')
+		if methodNode == nil {
+			punct(methodReader, nil, "the method reader", '-', '>')
+		} else {
+			pubs := publications(methodNode)
+			if len(pubs) == 0 {
+				r.Unresolved("Q9", "the Method node is recorded in the tree")
+			}
+			for _, pub := range pubs {
+				for _, c := range []int{'-', '>'} {
+					c, pub := c, pub
+					ok, w := mustCross(T, methodReader, nil, func(in ssa.Instruction) bool { return in == pub }, nil, func(fs []Fact) bool {
+						_, has := m.nextEq(fs, c)
+						return has
+					})
+					r.Ob("Q9", shortName(methodReader), fmt.Sprintf("the method reader succeeds only after reading %q", rune(c)), pub.Pos(), ok,
+						fmt.Sprintf("the method is recorded on a path that has not seen %q", rune(c)), witnessPos(p, w)...)
+				}
+			}
+		}
 		// the two arrow bytes are consecutive reads
 		// (after '-' is consumed, the next cursor event is the read that is compared with '>': nothing is read, skipped
 		// or stepped back in between - whether the two reads are written side by side or as two `expect` calls)
@@ -484,14 +577,17 @@ func runC06(r *Run, p *Prog) {
 			}
 		}
 		// in/out types of a method are read by a type reader and must be non-nil
-		for _, rv := range returnedValues(methodReader, 0) {
-			if T.T(rv.Val) == "nil" {
-				continue
+		var methodNodes []*ssa.Alloc
+		if methodNode != nil {
+			methodNodes = append(methodNodes, methodNode)
+		} else {
+			for _, rv := range returnedValues(methodReader, 0) {
+				if al, ok := rv.Val.(*ssa.Alloc); ok && T.T(rv.Val) != "nil" {
+					methodNodes = append(methodNodes, al)
+				}
 			}
-			al, ok := rv.Val.(*ssa.Alloc)
-			if !ok {
-				continue
-			}
+		}
+		for _, al := range methodNodes {
 			for _, fld := range []string{"In", "Out"} {
 				vals := fieldStores(al)[fld]
 				ok2 := len(vals) == 1
@@ -632,4 +728,40 @@ func commentRules(r *Run, m *idlModel, rule string) {
 func reachableCall(from, s, stop *ssa.Call) bool {
 	reach, _ := reachInstr(from.Parent(), from, func(in ssa.Instruction) bool { return in == ssa.Instruction(s) }, func(in ssa.Instruction) bool { return in == ssa.Instruction(stop) }, nil)
 	return reach
+}
+
+// publications: the instructions that hand the object al on - a return of it, a store of it (or of an interface value
+// holding it) anywhere (an element of a slice literal that is appended to a list of the tree), a call taking it.
+func publications(al *ssa.Alloc) []ssa.Instruction {
+	var out []ssa.Instruction
+	seen := map[ssa.Value]bool{}
+	var walk func(v ssa.Value)
+	walk = func(v ssa.Value) {
+		if seen[v] || v.Referrers() == nil {
+			return
+		}
+		seen[v] = true
+		for _, ref := range *v.Referrers() {
+			switch x := ref.(type) {
+			case *ssa.Return:
+				out = append(out, x)
+			case *ssa.Store:
+				if x.Val == v {
+					out = append(out, x)
+				}
+			case *ssa.MakeInterface:
+				walk(x)
+			case *ssa.Call:
+				for _, a := range x.Call.Args {
+					if a == v {
+						out = append(out, x)
+					}
+				}
+			case *ssa.Phi:
+				walk(x)
+			}
+		}
+	}
+	walk(al)
+	return out
 }
